@@ -140,7 +140,7 @@ func VerifC04Merge() {
 	// universe of 3 objects with distinct IDs and arbitrary attribute values
 	const U = 3
 	var objs [U]c04item
-	numVals := [U][]int{{-1, 0, 0, 10}, {0, 5}, {-1, 5, 10}} // second 0 of object 0 is spelled "-0"
+	numVals := [U][]int{{-19, 0, 0, 10}, {0, 5}, {-15, 5, 10}} // second 0 of object 0 is spelled "-0"
 	for i := range objs {
 		objs[i].id = byte(16 + i*16) // distinct IDs in a fixed order; the attribute decides the index order
 		if cmpInt {
